@@ -179,11 +179,39 @@ def compare_report(rep, out, want_json):
     return fails
 
 
+# environments of the child process: locale variables naming installed, uninstalled and malformed locales, terminal
+# variables, an absent HOME.  (PYTHONIOENCODING stays utf-8: what the interpreter can print is not the program's business.)
+ENVIRONMENTS = (
+    {}, {"LC_ALL": "C"}, {"LC_ALL": "POSIX"}, {"LC_ALL": "C.UTF-8"}, {"LC_ALL": "en_US.UTF-8"}, {"LANG": "xx_YY.UTF-8"}, {"LC_ALL": "tr_TR.UTF-8"},
+    {"LC_ALL": "no-such-locale"}, {"LC_NUMERIC": "de_DE.UTF-8", "LANG": "C"}, {"LC_CTYPE": "ja_JP.eucJP"}, {"LANGUAGE": "de:fr", "LANG": "de_DE@euro"},
+    {"LC_ALL": ""}, {"TERM": "dumb"}, {"TERM": None}, {"NO_COLOR": "1"}, {"COLUMNS": "20", "LINES": "5"}, {"COLUMNS": "x"}, {"HOME": None},
+    {"HOME": "/nonexistent"}, {"TZ": "Pacific/Kiritimati"}, {"PYTHONUNBUFFERED": "1"}, {"PYTHONUTF8": "1"}, {"PYTHONUTF8": "0", "LC_ALL": "C"},
+    {"FORCE_COLOR": "1", "CLICOLOR_FORCE": "1"}, {"DEBUG": "1", "VERBOSE": "1"}, {"TMPDIR": "/nonexistent"},
+)
+
+
+def planted_file(inp):
+    """(relative path = the VECTOR argument, content = another valid vector) when the case asks for it"""
+    if not inp.get("plant"):
+        return None
+    argv = expand(inp["argv"])
+    vec = vector_arg(argv)
+    if not vec or "\x00" in vec:
+        return ("unrelated", "x")
+    versions = selected_versions(argv)
+    ver = interact.verkey(versions[0])
+    V = spec.VERS[ver]
+    alt = ref.build(V.prefixes[-1], dict((k, V.table[k][0]) for k in V.mandatory), list(V.mandatory))
+    if alt == vec:
+        alt = ref.build(V.prefixes[-1], dict((k, V.table[k][-1]) for k in V.mandatory), list(V.mandatory))
+    return (vec, alt + "\n")
+
+
 def check_cli(inp):
     argv, stdin = inp["argv"], inp.get("stdin")
     raw = argv
     if inp.get("subprocess"):
-        r = cli.run_subprocess(argv, stdin, console_script=bool(inp.get("console_script")))
+        r = cli.run_subprocess(argv, stdin, console_script=bool(inp.get("console_script")), env_extra=inp.get("env"), plant=planted_file(inp))
     else:
         r = cli.run_inprocess(argv, stdin)
     fails = []
@@ -304,7 +332,7 @@ def case_strategy():
 def hyp_part(n_examples, shard, n_sub):
     from hypothesis import given
     part = runner.Part(PID)
-    sub_budget = [n_sub]
+    every = max(1, n_examples // max(1, n_sub))
 
     @runner.seeded(17, shard)
     @runner.hyp_settings(n_examples)
@@ -319,32 +347,41 @@ def hyp_part(n_examples, shard, n_sub):
         nt = ("json" in classes and mode == "valid") or mode in ("mutant", "other-version", "text", "argparse-special", "interactive-eof")
         part.count(inp, nontrivial=nt, classes=classes)
         ok = part.check("cli", check_cli, inp, hyp=True)
-        if ok and sub_budget[0] > 0 and "\n" not in "".join(inp["argv"]):
-            sub_budget[0] -= 1
+        # which cases are re-run as real processes, and how, is a function of the case (a counter would make a failure
+        # irreproducible for the library's own replay)
+        k = runner.h64(json.dumps([inp["argv"], inp["stdin"]], sort_keys=True))
+        if ok and k % every == 0 and "\n" not in "".join(inp["argv"]):
+            k //= every
             part.classes["subprocess"] += 1
             a = cli.run_inprocess(inp["argv"], inp["stdin"])
-            cs = bool(sub_budget[0] % 2)          # alternately 'python -m cvss.cvss_calculator' and the console-script launcher
-            b = cli.run_subprocess(inp["argv"], inp["stdin"], console_script=cs)
+            cs = bool(k % 2)          # alternately 'python -m cvss.cvss_calculator' and the console-script launcher
+            sub = dict(inp, subprocess=True, console_script=cs, env=ENVIRONMENTS[k % len(ENVIRONMENTS)], plant=bool(k % 3 == 0))
+            part.classes["subprocess-env:%s" % ",".join(sorted(sub["env"])) if sub["env"] else "subprocess-env:unchanged"] += 1
+            if sub["plant"]:
+                part.classes["subprocess-with-file-named-like-the-vector"] += 1
+            b = cli.run_subprocess(inp["argv"], inp["stdin"], console_script=cs, env_extra=sub["env"], plant=planted_file(sub))
             if b["status"] != 0 or "Traceback" in b["err"]:
-                raise runner.Falsified("cli", dict(inp, subprocess=True, console_script=cs), [failure("exit status 0, no traceback", {"status": b["status"], "stderr": b["err"][-300:]})])
+                raise runner.Falsified("cli", sub, [failure("exit status 0, no traceback", {"status": b["status"], "stderr": b["err"][-300:]})])
             if a["out"] != b["out"]:
-                raise runner.Falsified("cli", dict(inp, subprocess=True), [failure(a["out"][-300:], b["out"][-300:], note="subprocess stdout differs from in-process stdout")])
+                raise runner.Falsified("cli", sub, [failure(a["out"][-300:], b["out"][-300:], note="subprocess stdout differs from in-process stdout")])
     runner.run_hyp(part, t, "C17.hyp")
     return part
 
 
 def run(tier, t0):
     if tier == "quick":
-        part = runner.hyp_shards("vf.props.c17", "hyp_part", 4800, args=(12,))
+        part = runner.hyp_shards("vf.props.c17", "hyp_part", 4800, args=(20,))
     else:
-        part = runner.hyp_shards("vf.props.c17", "hyp_part", 160000, args=(200,))
+        part = runner.hyp_shards("vf.props.c17", "hyp_part", 160000, args=(300,))
+    from ..fuzz import driver
+    fuzz_note = driver.campaign(part, "cli", runs=80000 if tier == "quick" else 2000000)
     rule = ("command lines: 0/1/several of -2 -3 -4, -j/-a/-n (short or long), vector (valid for the selected version, valid "
             "for another version, 1-3-edit mutant, arbitrary text without NUL/surrogates; '-v X', '--vector X' or '--vector=X') "
             "or interactive entry with a C16 answer script (complete or truncated = premature EOF); shuffled flag order. A "
             "fixed number of passing cases per shard is re-run as a real subprocess (exit status, no traceback, same stdout). "
             "non-trivial = valid vector with -j, or invalid vector, or truncated stdin; distinct by hash")
     return runner.finish(part, tier, t0, rule,
-                         ["several version flags: the report of any selected version is accepted (precedence undefined by the statement)",
+                         ["coverage-guided: " + fuzz_note, "several version flags: the report of any selected version is accepted (precedence undefined by the statement)",
                           "an empty VECTOR is read as 'no vector'; layout/padding, banners and prompts are not asserted; ratings are required for v3/v4 (the CLI prints none for v2); a None v2 score line may be printed or omitted"],
                          required=("clustered-short-flags", "mode:valid", "mode:other-version", "mode:mutant", "mode:text", "mode:argparse-special", "mode:interactive", "mode:interactive-eof",
                                    "flags=0", "flags=1", "flags=2", "json", "subprocess"))
